@@ -82,15 +82,16 @@ def clz (s : List Bool) : Nat := ctz s.reverse
 
 /-! ### cyclic_mask (functions.py:106-123)
 
-`start`, `end` are unsigned signals holding positions `< bits`; the expression is wider
-than `bits` bits, the mask is its low `bits` bits. -/
+`start`, `end` are unsigned signals holding positions `< bits`.  The returned expression is
+wider than `bits` bits; the model is its full value (not truncated), so that
+`c36_cyclic_mask` also says that no bit at or above position `bits` is set. -/
 def cyclicMask (bits start end_ : Nat) : Nat :=
   let length := end_ - start + 1
   let maskSe := (2 ^ length - 1) <<< start               -- ((1 << length) - 1) << start
   let left := 2 ^ (end_ + 1) - 1                         -- (1 << (end + 1)) - 1
   let right := 2 ^ (bits - start) - 1                    -- (1 << (bits - start)) - 1
   let maskEs := left ||| (right <<< start)
-  (if start ≤ end_ then maskSe else maskEs) % 2 ^ bits
+  if start ≤ end_ then maskSe else maskEs
 
 /-! ### lowest-set-bit tricks (functions.py:388-439)
 
